@@ -138,7 +138,11 @@ func aofTorn(args []string) int {
 			fmt.Fprintln(os.Stderr, err)
 			return 2
 		}
-		conn, _ := srv.Dial()
+		conn, err := srv.Dial()
+		if err != nil {
+			fmt.Fprintln(os.Stderr, err)
+			return 2
+		}
 		var posts, postxs []interface{}
 		var logged [][]string
 		posts = append(posts, b.Empty)
@@ -247,7 +251,14 @@ func aofTorn(args []string) int {
 						add("size", fmt.Sprintf("file is %d bytes after recovery, the last complete command (with its padding) ends at %d", fi.Size(), keep))
 					} else {
 						// keeps appending: one more acknowledged write must survive a further restart
-						c, _ := s1.Dial()
+						c, err := s1.Dial()
+						if err != nil {
+							mu.Lock()
+							firstErr = fmt.Errorf("cannot connect to the recovered server: %v", err)
+							mu.Unlock()
+							s1.StopAndRemove()
+							continue
+						}
 						r, err := c.Do(extra...)
 						c.Close()
 						if err != nil || r.Kind != '+' {
